@@ -225,6 +225,35 @@ def vrpCallsWith (localTbl : Bool) : CapTable → List (CapTable × Nat) → Lis
 def vrpCalls (calls : List (CapTable × Nat)) : List (Option Frac) :=
   vrpCallsWith Params.genDataVrpTableLocal Params.genDataVrpCapacities calls
 
+
+/-! ### warm start from a checkpoint: the key mapping of `PolyNet(base_model_checkpoint_path=…)` on key strings -/
+
+/-- `k.replace(pat, "", 1)`: remove the FIRST occurrence of `pat` -/
+def stripFirst (pat : List Char) : List Char → List Char
+  | [] => []
+  | c :: cs => if pat.isPrefixOf (c :: cs) then (c :: cs).drop pat.length else c :: stripFirst pat cs
+
+/-- `k.split(pat, 1)[-1]`: everything after the first occurrence of `pat` (the whole key when there is none) — the recognised
+wrong form: it also discards whatever precedes the occurrence -/
+def afterFirst (pat : List Char) (k : List Char) : List Char :=
+  let rec go : List Char → Option (List Char)
+    | [] => none
+    | c :: cs => if pat.isPrefixOf (c :: cs) then some ((c :: cs).drop pat.length) else go cs
+  (go k).getD k
+
+def policyPat : List Char := "policy.".toList
+
+/-- the mapping as coded (`replaceFirst` is extracted from the source) -/
+def mapKeyWith (replaceFirst : Bool) (k : String) : String :=
+  String.ofList (if replaceFirst then stripFirst policyPat k.toList else afterFirst policyPat k.toList)
+
+def mapKey (k : String) : String := mapKeyWith Params.genPolynetKeyMapReplaceFirst k
+
+/-- `{map(k): v for k, v in state_dict.items()}` followed by `load_state_dict(strict=False)`: for a policy key, the
+checkpoint key whose tensor ends up there (the LAST one in checkpoint order that maps onto it) -/
+def sourceOf (ckptKeys : List String) (target : String) : Option String :=
+  (ckptKeys.filter (fun k => mapKey k == target)).getLast?
+
 /-! ### the npz container at the level of a key → array map with dtype / shape tags
 (`save_tensordict_to_npz`, `load_npz_to_tensordict`).  Array contents are abstract (`α`); what numpy is trusted to do is
 stated once, as a `Codec`. -/
